@@ -213,7 +213,11 @@ func runProp(id, tier string) int {
 	}
 	var all []ob.Obligation
 	perCfg := map[string]map[string]int{}
-	for _, cfg := range configsFor(tier) {
+	cfgs := configsFor(tier)
+	if tier != "thorough" && len(p.QuickCfgs) > 0 {
+		cfgs = p.QuickCfgs
+	}
+	for _, cfg := range cfgs {
 		l, counts := runRules(p.Rules, cfg, nil)
 		all = append(all, l...)
 		perCfg[cfg] = counts
